@@ -142,7 +142,13 @@ pub fn enum_inputs(size: u32, seed: u64, discrs: &[u128]) -> Vec<u128> {
     let m = mask(size);
     if size <= 12 { return (0..=m).collect(); }
     let mut v = vec![0, m, m >> 1];
-    for &d in discrs { v.push(d & m); v.push(d.wrapping_add(1) & m); v.push(d.wrapping_sub(1) & m); }
+    for &d in discrs {
+        v.push(d & m); v.push(d.wrapping_add(1) & m); v.push(d.wrapping_sub(1) & m);
+        // a discriminant with one higher bit set (conversions that look at a truncated value: seeded S93)
+        for p in [8u32, 15, 16, 24, 31, 32, 33, 40, 48, 56, 62, 63] {
+            if p < size { v.push((d | (1u128 << p)) & m); v.push((d ^ (1u128 << (size - 1))) & m); }
+        }
+    }
     let mut r = Rng::new(seed, 4000 + size as u64);
     for _ in 0..64 { v.push(r.next128() & m); }
     dedup(v)
@@ -154,7 +160,16 @@ fn idx_text(i: Option<usize>) -> String { match i { Some(i) => format!("{}", i),
 fn indices(k: usize) -> (Vec<usize>, Vec<usize>) {
     let mut v: Vec<usize> = if k <= 6 { (0..k).collect() } else { vec![0, 1, k / 2, k - 2, k - 1] };
     v.dedup();
-    (v, vec![k, k + 1, usize::MAX])
+    // out of range: just above, the maximum, and indices whose product with a small stride wraps around 2^64 to a small
+    // number (a bounds check made after the multiplication accepts those when overflow checks are off: seeded S90)
+    let mut oob = vec![k, k + 1, usize::MAX, 1usize << 32, 1usize << 63, (1usize << 63) + 1, (1usize << 62) + (k - 1)];
+    for s in [2u128, 3, 4, 5, 6, 7, 8, 9, 10, 12, 16, 17, 24, 32, 33, 64] {
+        let q = (((1u128 << 64) + s - 1) / s) as u128;
+        oob.push((q as usize).wrapping_add(if s % 2 == 0 { k - 1 } else { 0 }));
+    }
+    oob.retain(|&i| i >= k);
+    oob.sort(); oob.dedup();
+    (v, oob)
 }
 
 pub fn op_rt<S>(o: &mut Out, d: &str, raws: &[u128], mk: &dyn Fn(u128) -> S, rawof: &dyn Fn(&S) -> u128) {
@@ -228,13 +243,13 @@ pub fn op_write<S, V: Show + Copy>(o: &mut Out, d: &str, f: &str, count: Option<
 }
 
 pub enum VK { Bits(u32), Small(u32) }
-pub struct FI { pub name: &'static str, pub count: Option<usize>, pub vk: VK }
+pub struct FI { pub name: &'static str, pub count: Option<usize>, pub vk: VK, pub rb: bool }
 
 /// random histories of writes; after each history the final raw value is printed and the value is compared
 /// with its re-wrapped copy through every getter
 pub fn op_hist<S>(o: &mut Out, d: &str, n: u32, fields: &[FI], mk: &dyn Fn(u128) -> S, rawof: &dyn Fn(&S) -> u128, stor: &dyn Fn(&S) -> u128,
                   apply: &dyn Fn(&mut S, usize, usize, u128, bool) -> String, getters: &dyn Fn(&S) -> Vec<String>,
-                  rewrap: &dyn Fn(&S) -> S) {
+                  rewrap: &dyn Fn(&S) -> S, readback: &dyn Fn(&S, usize, usize) -> Option<String>) {
     let nseq = (if o.tier_thorough { 60 } else { 12 }) + o.boost / 8;
     let maxlen = if o.tier_thorough { 200 } else { 24 };
     let m = mask(n);
@@ -255,17 +270,31 @@ pub fn op_hist<S>(o: &mut Out, d: &str, n: u32, fields: &[FI], mk: &dyn Fn(u128)
         let out = catch(|| {
             let mut st = mk(raw);
             let mut text = String::new();
+            let mut last: Option<(usize, usize, String)> = None;
             for &(fi, idx, v, use_set) in &steps {
                 let shown = apply(&mut st, fi, idx, v, use_set);
+                last = Some((fi, idx, shown.clone()));
                 let it = match fields[fi].count { Some(_) => format!("{}", idx), None => "-".into() };
                 text.push_str(&format!(" {} {} {} {}", if use_set { "s" } else { "w" }, fields[fi].name, it, shown));
             }
             let fin = rawof(&st);
             let same = getters(&st) == getters(&rewrap(&st));
-            (text, fin, same, stor(&st))
+            // the field written last reads back what was written, whatever the writes before it left behind
+            let mut rb: Option<String> = None;
+            if let Some((fi, idx, shown)) = last {
+                if fields[fi].rb {
+                    if let Some(got) = readback(&st, fi, idx) {
+                        if got != format!("ok {}", shown) && got != format!("ok Ok({})", shown) {
+                            rb = Some(format!("{} {} wrote {} read {}", fields[fi].name, idx, shown, got));
+                        }
+                    }
+                }
+            }
+            (text, fin, same, stor(&st), rb)
         });
         match out {
-            Some((text, fin, same, sto)) => {
+            Some((text, fin, same, sto, rb)) => {
+                if let Some(x) = rb { o.line(&format!("READBACK-DIFF {} hist {:#x} {}{} :: {}", d, raw, steps.len(), text, x)); }
                 o.line(&format!("op {} hist {:#x} {}{} = ok {:#x}", d, raw, steps.len(), text, fin));
                 if !same { o.line(&format!("REWRAP-DIFF {} hist {:#x} {}{}", d, raw, steps.len(), text)); }
                 if sto != fin { o.line(&format!("HIDDEN-STATE {} hist {:#x} {}{} storage={:#x} raw_value={:#x}", d, raw, steps.len(), text, sto, fin)); }
